@@ -1,0 +1,21 @@
+//go:build verif
+// +build verif
+
+package tmindex
+
+// Verification-only export (build tag `verif`) for the C09 check: the time hull a chunk gets from a sequence of write
+// notifications, computed by the real code (`chkInfo` creation as in cindex.onWrite, then chkInfo.update per notification).
+
+// VerifChunkHull folds the notifications (each a [min,max] pair) into a chunk hull: the first one creates the chkInfo,
+// every further one goes through chkInfo.update. ok is false for an empty sequence.
+func VerifChunkHull(notifs [][2]int64) (minTs, maxTs int64, ok bool) {
+	if len(notifs) == 0 {
+		return 0, 0, false
+	}
+	ci := &chkInfo{Id: 1, MinTs: notifs[0][0], MaxTs: notifs[0][1]}
+	for _, n := range notifs[1:] {
+		ci.update(RecordsInfo{Id: 1, MinTs: n[0], MaxTs: n[1]})
+	}
+	ri := ci.getRecordsInfo()
+	return ri.MinTs, ri.MaxTs, true
+}
